@@ -4,11 +4,16 @@
 #![allow(clippy::all)]
 #![allow(dead_code)]
 
+mod alloc;
+mod attack;
 mod edges;
 mod etf;
 mod frag;
 mod io;
 mod term_json;
+
+#[global_allocator]
+static GLOBAL: alloc::Counting = alloc::Counting;
 
 fn main() {
     let args: Vec<String> = std::env::args().collect();
@@ -22,6 +27,7 @@ fn main() {
         "etf-obs" => etf::run_obs(rest),
         "etf-random" => etf::run_random(rest),
         "id-twins" => etf::run_id_twins(rest),
+        "attack-run" => attack::run(rest),
         other => {
             eprintln!("unknown subcommand {other}");
             2
